@@ -31,7 +31,10 @@ type Env struct {
 	depth  int
 	sec    Heap // heap at the start of the current critical section (atsection(e))
 	lhead  Heap // heap at the start of the current loop iteration (athead(e), back-edge clauses only)
+	lheadBlk *ssa.BasicBlock // the loop head of a back-edge clause
+	inHead bool // evaluating inside athead(): loop variables denote their value at the start of the iteration
 	pre    Heap // heap just before the call of an "after" site clause (before(e))
+	post   Heap // ghost effects of a contract only: the heap when the callee returns (after(e))
 	quant  int  // nesting depth of quantifiers (bound variables in scope)
 	maxOrd int  // evaluation happens in the middle of block 'at': later bindings are invisible
 }
@@ -231,6 +234,17 @@ func (env *Env) lookupType(e ast.Expr) types.Type {
 		}
 	case *ast.ParenExpr:
 		return env.lookupType(x.X)
+	case *ast.ArrayType:
+		if t := env.lookupType(x.Elt); t != nil {
+			if x.Len == nil {
+				return types.NewSlice(t)
+			}
+			if bl, ok := x.Len.(*ast.BasicLit); ok {
+				if n, err := strconv.ParseInt(bl.Value, 0, 64); err == nil {
+					return types.NewArray(t, n)
+				}
+			}
+		}
 	}
 	return nil
 }
@@ -258,6 +272,20 @@ func (env *Env) ident(name string) (Val, error) {
 		}
 		if name == "result0" && env.result.T != "" {
 			return env.result, nil // a single result, for functions that have a parameter called result
+		}
+	}
+	if env.inHead && env.lheadBlk != nil && env.fr != nil {
+		// inside athead(): a loop variable (phi of the loop head) has the value the iteration started with
+		for _, in := range env.lheadBlk.Instrs {
+			ph, ok := in.(*ssa.Phi)
+			if !ok {
+				break
+			}
+			if ph.Comment == name {
+				if v, ok := env.fr.vals[ph]; ok {
+					return v, nil
+				}
+			}
 		}
 	}
 	if env.fr != nil && env.at != nil {
@@ -505,6 +533,46 @@ func (env *Env) eval(e ast.Expr) (Val, error) {
 			return r, nil
 		}
 		return env.index(base, idx)
+	case *ast.SliceExpr:
+		// s[lo:hi] of a string or a slice (the code's own slicing carries the bounds obligation; here only the value)
+		base, err := env.eval(x.X)
+		if err != nil {
+			return Val{}, err
+		}
+		lo := "0"
+		if x.Low != nil {
+			v, err := env.eval(x.Low)
+			if err != nil {
+				return Val{}, err
+			}
+			lo = v.T
+		}
+		if base.Typ == nil {
+			return Val{}, fmt.Errorf("slice expression on untyped value")
+		}
+		switch base.Typ.Underlying().(type) {
+		case *types.Basic:
+			hi := sApp("slen", base.T)
+			if x.High != nil {
+				v, err := env.eval(x.High)
+				if err != nil {
+					return Val{}, err
+				}
+				hi = v.T
+			}
+			return Val{T: sApp("ssub", base.T, lo, hi), Typ: base.Typ}, nil
+		case *types.Slice:
+			hi := sApp("s-len", base.T)
+			if x.High != nil {
+				v, err := env.eval(x.High)
+				if err != nil {
+					return Val{}, err
+				}
+				hi = v.T
+			}
+			return Val{T: sApp("mk-slice", sApp("s-arr", base.T), sApp("+", sApp("s-off", base.T), lo), sApp("-", hi, lo), sApp("-", sApp("s-cap", base.T), lo)), Typ: base.Typ}, nil
+		}
+		return Val{}, fmt.Errorf("slice expression on %s", base.Typ)
 	case *ast.StarExpr:
 		base, err := env.eval(x.X)
 		if err != nil {
@@ -723,12 +791,20 @@ func (env *Env) call(x *ast.CallExpr) (Val, error) {
 			r.T = "ghostpre:" + strings.TrimPrefix(r.T, "ghost:")
 		}
 		return r, err
+	case "after":
+		if env.post.m == nil {
+			return Val{}, fmt.Errorf("after(): only available in the ghost effects of a contract")
+		}
+		n := env.sub()
+		n.heap = env.post
+		return n.eval(x.Args[0])
 	case "athead":
 		if env.lhead.m == nil {
 			return Val{}, fmt.Errorf("athead(): only available in `loop#N backedge` clauses")
 		}
 		n := env.sub()
 		n.heap = env.lhead
+		n.inHead = true
 		return n.eval(x.Args[0])
 	case "atsection":
 		if env.sec.m == nil {
